@@ -357,8 +357,13 @@ func (g *gen) operation(method string, vars []string) M {
 	}
 	if r.IntN(2) == 0 {
 		d := M{"description": "any other status"}
-		if r.IntN(2) == 0 && method != "head" {
-			d["content"] = M{"application/json": M{"schema": M{"$ref": g.componentObject(1)}}}
+		if method != "head" {
+			switch r.IntN(4) {
+			case 0, 1:
+				d["content"] = M{"application/json": M{"schema": M{"$ref": g.componentObject(1)}}}
+			case 2:
+				d["content"] = M{[]string{"application/octet-stream", "text/plain"}[r.IntN(2)]: M{"schema": M{"type": "string", "format": "binary"}}}
+			}
 		}
 		resps["default"] = d
 	}
